@@ -174,6 +174,9 @@ def main():
                       'want_assertions_signed; marker search (raw and base64 at three alignments) and decryption with every key of '
                       'the pool; plus the encrypted slice of the C05 scenario space')
     chk.assumptions = list(fw.TOOL_ASSUMPTIONS)
+    # several requests at once on one Server: IdPConcurrent.tla
+    import idp_concurrent
+    idp_concurrent.run(chk)
     sb.cleanup()
     return chk.finish()
 
